@@ -334,8 +334,12 @@ func runC12(c *run.Ctx, s *kit.Summary) {
 		if i < 2 {
 			s.Sample(map[string]string{"op": "hist.unmarshal", "spec": spec, "impl": o})
 		}
-		if o == "panic" {
-			s.Violate(kit.Violation{Kind: "unmarshal_panic", What: "Buckets.UnmarshalText panicked", Input: spec})
+		if o == "panic" && mut {
+			// a panic on a MUTATED (possibly malformed) specification is the business of C16, not of this property:
+			// the model comparison below still shows it (a broken tie)
+			s.Count("unmarshal:panic_on_mutated_spec(not judged here)")
+		} else if o == "panic" {
+			s.Violate(kit.Violation{Kind: "unmarshal_panic", What: "Buckets.UnmarshalText panicked on a well-formed bucket specification", Input: spec})
 		}
 		if !mut {
 			// oracle: preserves the given bounds; implicit zero bound when the first is positive
@@ -367,7 +371,9 @@ func runC12(c *run.Ctx, s *kit.Summary) {
 					}
 				}
 			} else if ok {
-				s.Violate(kit.Violation{Kind: "unmarshal_accepts_bad", What: "spec with an unparsable part accepted", Input: spec, Observed: o})
+				// the property speaks of what a GIVEN specification means, not of which malformed ones are refused:
+				// acceptance of a specification with an unparsable part is left to the model comparison
+				s.Count("unmarshal:malformed_spec_accepted(not judged here)")
 			}
 		}
 	}
